@@ -63,6 +63,15 @@ def main():
     need(inline.inline_temps(fn, {'end'}) == [], 'not when an operand is rebound in between')
     fn = ast.parse("def f(s):\n    acc = []\n    for x in s:\n        acc.append(x)\n    return acc\n").body[0]
     need(inline.inline_temps(fn, {'acc'}) == [], 'a mutable display read more than once keeps its name (identity)')
+    tg = ast.parse("class K:\n    def m(self, r):\n        nm = self._T.get(r.size)\n        if nm is None:\n            raise E()\n"
+                   "        v = getattr(self.s, nm)('')\n        return v\n    _T = {4: 'word', 8: 'xword'}\n")
+    need(inline.expand_table_get(tg, set(), set()) == 1 and
+         canon_of(ast.unparse(tg.body[0].body[0])) == canon_of("def m(self, r):\n    if r.size == 4:\n        v = self.s.word('')\n    elif r.size == 8:\n"
+                                                              "        v = self.s.xword('')\n    else:\n        raise E()\n    return v\n"),
+         'N27b: a new constant table consulted with .get is the chain it replaced')
+    need(canon_of("def f(self, i):\n    return next((v for v, it in self.iv() if v['n'] == i), None)\n") ==
+         canon_of("def f(self, i):\n    for v, it in self.iv():\n        if v['n'] == i:\n            return v\n    return None\n"),
+         'N39: a generator-expression search is the loop it abbreviates')
     pv = ast.parse("def g(c, n):\n    size = n\n    if c:\n        size //= 2\n    return size\n").body[0]
     vals = sorted(expr.path_value(p, p.end[1]) for p in paths.func_paths(pv))
     need(vals == ['floordiv(n,2)', 'n'], 'path-sensitive values: %s' % vals)
